@@ -98,6 +98,17 @@ func c19CheckGoName(w *fw.Worker, idx int, words []string) bool {
 		key := "goident-mismatch:" + c19Classify(words, dec)
 		w.Violation(idx, key, fmt.Sprintf("DecodeGoCamelCase(%q) = %q, want %q", name, []string(dec), words),
 			map[string]any{"name": name, "words": words, "decoded": []string(dec)})
+		return true
+	}
+	// the decoded words belong to the caller: overwriting them must not change what the name decodes to next
+	for k := range dec {
+		dec[k] = "#overwritten-by-the-caller"
+	}
+	dec2, err2 := caseconversion.DecodeGoCamelCase(name)
+	w.Count("goident_decoded_again_after_overwriting_the_result", 1)
+	if err2 != nil || !reflect.DeepEqual([]string(dec2), words) {
+		w.Violation(idx, "goident-result-shared-between-calls", fmt.Sprintf("DecodeGoCamelCase(%q) = %q (err %v) after the caller overwrote the words of the previous result; want %q", name, []string(dec2), err2, words),
+			map[string]any{"name": name, "words": words})
 	}
 	return true
 }
@@ -280,6 +291,21 @@ func runC19(w *fw.Worker) {
 		} else {
 			n := r.Range(3, 5)
 			ws := gen.MaybeUnicode(r, gen.RandomWords(r, n, 45), 10)
+			if r.Chance(12) {
+				// a long run of adjacent initialisms (JSONAPIURLHTTPSSH...), optionally between ordinary words
+				k := r.Range(4, 16)
+				ws = ws[:0]
+				if r.Bool() {
+					ws = append(ws, fw.Pick(r, gen.OrdinaryWords))
+				}
+				for ; k > 0; k-- {
+					ws = append(ws, strings.ToLower(fw.Pick(r, gen.Initialisms)))
+				}
+				if r.Bool() {
+					ws = append(ws, fw.Pick(r, gen.OrdinaryWords))
+				}
+				w.Count("goident_long_initialism_runs_drawn", 1)
+			}
 			if c19CheckGoName(w, i, ws) {
 				w.Distinct("B|" + strings.Join(ws, ","))
 				if i%997 == 5 {
